@@ -115,14 +115,14 @@ func JSONGetNaturalLanguageField(val *fastjson.Value, prop string) NaturalLangua
 	case fastjson.TypeObject:
 		ob, _ := v.Object()
 		ob.Visit(func(key []byte, v *fastjson.Value) {
-			l := LangRefValue{Ref: LangRef(key), Value: unescape(v.GetStringBytes())}
+			l := LangRefValue{Ref: LangRef(key), Value: append(Content(nil), v.GetStringBytes()...)}
 			if l.Ref != NilLangRef || len(l.Value) > 0 {
 				n = append(n, l)
 			}
 		})
 	case fastjson.TypeString:
 		// the value is the text itself: it must not be parsed as a JSON document again
-		n = append(n, LangRefValue{Ref: NilLangRef, Value: unescape(v.GetStringBytes())})
+		n = append(n, LangRefValue{Ref: NilLangRef, Value: append(Content(nil), v.GetStringBytes()...)})
 	}
 
 	return n
